@@ -549,3 +549,54 @@ def repo_pairs_validation(run, max_listing_bytes=400000, window=1200):
                     run.harness_error(f"repo pair {e['title']}: record start {p} is a member of the translated language but the real engine does not match there")
     run.count("repo_pairs_ground_checks", done)
     run.count("traces_validated_end_to_end", done)
+
+
+
+# ------------------------------------------------------------------ compile-sequence invariance (state kept between compilations)
+def sequence_invariance(run, items, key_prefix):
+    """items: list of (name, doc, extra_macro_files) where extra_macro_files is a list of (file name, macros list).
+    All files live at STABLE paths in one scratch directory. For every ordered pair (X, Y): the regex of Y compiled after X
+    must equal the regex of Y compiled before anything else in a fresh interpreter (errors compared by type)."""
+    import json as _json
+    import os
+    import subprocess
+    import sys as _sys
+
+    from . import jasmapi
+    from .common import SRC
+
+    script = r"""
+import sys, json, os, yaml, logging
+sys.path.insert(0, sys.argv[1]); logging.disable(logging.CRITICAL)
+from jasm.jasm_regex.yaml2regex import Yaml2Regex
+items = json.loads(sys.argv[2]); seq = json.loads(sys.argv[3]); d = sys.argv[4]
+out = []
+for k in seq:
+    name, doc, extra = items[k]
+    p = os.path.join(d, name + ".yaml"); open(p, "w").write(yaml.safe_dump(doc, sort_keys=False))
+    paths = []
+    for fn, macros in extra or []:
+        mp = os.path.join(d, fn); open(mp, "w").write(yaml.safe_dump({"macros": macros}, sort_keys=False)); paths.append(mp)
+    try:
+        out.append(Yaml2Regex(p, macros_from_terminal=paths or None).produce_regex())
+    except Exception as e:
+        out.append("EXC " + type(e).__name__)
+print("RESULT " + json.dumps(out))
+"""
+
+    def run_seq(seq, d):
+        p = subprocess.run([_sys.executable, "-c", script, SRC, _json.dumps(items), _json.dumps(seq), d], capture_output=True, text=True, timeout=120)
+        for line in p.stdout.splitlines():
+            if line.startswith("RESULT "):
+                return _json.loads(line[7:])
+        raise RuntimeError(p.stderr[-400:])
+
+    with jasmapi.scratch() as d:
+        fresh = [run_seq([k], d)[0] for k in range(len(items))]
+        for i in range(len(items)):
+            for j in range(len(items)):
+                got = run_seq([i, j], d)[-1]
+                run.count("compile_sequences_checked")
+                if got != fresh[j]:
+                    run.count("disagreements_replayed")
+                    run.failure(f"{key_prefix}/SEQUENCE", f"compiling '{items[j][0]}' after '{items[i][0]}' gives {got[:120]!r}, in a fresh process {fresh[j][:120]!r}", {"kind": "sequence", "items": items, "seq": [i, j]})
